@@ -100,6 +100,9 @@ func (ms *Modules) findFile(name string) (string, string, error) {
 
 	switch data, err := readFile(name); true {
 	case err == nil:
+		if verifEnabled {
+			verifEmit("file.read", "path", name)
+		}
 		ms.AddPath(filepath.Dir(name))
 		return name, string(data), nil
 	case slash >= 0:
@@ -118,6 +121,9 @@ func (ms *Modules) findFile(name string) (string, string, error) {
 			continue
 		}
 		if data, err := readFile(n); err == nil {
+			if verifEnabled {
+				verifEmit("file.read", "path", n)
+			}
 			return n, string(data), nil
 		}
 	}
